@@ -173,6 +173,17 @@ def special(r, doc):
         get(d, p[:-1])[p[-1]] = True
         out.append(("bool for number at /%s" % "/".join(map(str, p)), d))
     for p, v in paths(doc):
+        if isinstance(v, dict) and "values" in v and isinstance(v.get("range"), str) and len(v["range"]) > 1 and v["values"]:
+            d = copy.deepcopy(doc)
+            vs = get(d, p)["values"]
+            if r.random() < 0.5:
+                vs[0]["v"] = vs[0]["v"][:-1]
+                out.append(("vector value of a Bag truncated at /%s" % "/".join(map(str, p)), d))
+            else:
+                vs[0]["v"] = vs[0]["v"] + [1.0]
+                out.append(("vector value of a Bag extended at /%s" % "/".join(map(str, p)), d))
+            break
+    for p, v in paths(doc):
         if isinstance(v, dict) and "values" in v and "range" in v and v["values"]:
             d = copy.deepcopy(doc)
             vs = get(d, p)["values"]
